@@ -1866,8 +1866,6 @@ static int FIO_compressFilename_dstFile(FIO_ctx_t* const fCtx,
     result = FIO_compressFilename_internal(fCtx, prefs, ress, dstFileName, srcFileName, compressionLevel);
 
     if (closeDstFile) {
-        clearHandler();
-
         if (transferStat) {
             UTIL_setFDStat(dstFd, dstFileName, srcFileStat);
         }
@@ -1877,6 +1875,9 @@ static int FIO_compressFilename_dstFile(FIO_ctx_t* const fCtx,
             DISPLAYLEVEL(1, "zstd: %s: %s \n", dstFileName, strerror(errno));
             result=1;
         }
+        /* only after the last buffered bytes have reached the file :
+         * an interruption before that point must still remove the artefact */
+        clearHandler();
 
         if (transferStat) {
             UTIL_utime(dstFileName, srcFileStat);
@@ -2850,8 +2851,6 @@ static int FIO_decompressDstFile(FIO_ctx_t* const fCtx,
     result = FIO_decompressFrames(fCtx, ress, prefs, dstFileName, srcFileName);
 
     if (releaseDstFile) {
-        clearHandler();
-
         if (transferStat) {
             UTIL_setFDStat(dstFd, dstFileName, srcFileStat);
         }
@@ -2860,6 +2859,9 @@ static int FIO_decompressDstFile(FIO_ctx_t* const fCtx,
             DISPLAYLEVEL(1, "zstd: %s: %s \n", dstFileName, strerror(errno));
             result = 1;
         }
+        /* only after the last buffered bytes have reached the file :
+         * an interruption before that point must still remove the artefact */
+        clearHandler();
 
         if (transferStat) {
             UTIL_utime(dstFileName, srcFileStat);
